@@ -5,10 +5,13 @@
 package pump
 
 import (
+	crand "crypto/rand"
 	"fmt"
+	"io"
 	"math/big"
 	"math/rand"
 	"regexp"
+	"runtime/debug"
 	"sort"
 	"strconv"
 	"strings"
@@ -64,6 +67,9 @@ type Config struct {
 
 	NoProofs bool  // resharing / keygen: SetNoProofMod + SetNoProofFac
 	Seed     int64 // seeds protocol randomness; 0 = crypto/rand
+	// FirstDraws, when set, gives per party (in sorted party order) the bytes its Rand() source yields first
+	// (e.g. the big-endian encoding of the nonce share k_i an ECDSA signer draws first in round 1)
+	FirstDraws [][]byte
 }
 
 // Node is one protocol participant.
@@ -79,6 +85,7 @@ type Node struct {
 	endS  chan *common.SignatureData
 
 	Started bool
+	Panic   string     // a call into the library panicked in the caller's goroutine (value + stack)
 	Aborted bool       // a call returned an error; the harness stops feeding it unless told otherwise
 	Err     *tss.Error // first error
 	Results []any      // values received on the end channel
@@ -114,6 +121,14 @@ type Session struct {
 	Mutate func(it *Item) []byte
 	// ObsHook lets a property attach observation booleans to the event of a call on node n
 	ObsHook func(s *Session, n *Node) map[string]bool
+	// EventHook may fill further fields of the event of a call on node n
+	EventHook func(s *Session, n *Node, e *ev.Event)
+	// Silent nodes neither receive nor have their messages delivered any more (crash / going silent)
+	Silent map[int]bool
+	// KeepFeedingAborted: keep delivering to parties that returned an error (C06: deliveries after an abort)
+	KeepFeedingAborted bool
+	// FromOverride may replace the sender identity an item is handed over with (C06: sender index out of range etc.)
+	FromOverride func(it *Item) (index int, ok bool)
 }
 
 var roundRe = regexp.MustCompile(`round: (\d+)`)
@@ -132,6 +147,29 @@ func (d *drbg) Read(p []byte) (int, error) {
 }
 
 func NewDRBG(seed int64) *drbg { return &drbg{r: rand.New(rand.NewSource(seed))} }
+
+// prefixReader yields the given bytes first and then the bytes of the underlying reader.
+type prefixReader struct {
+	mu   sync.Mutex
+	pre  []byte
+	rest io.Reader
+}
+
+func (p *prefixReader) Read(b []byte) (int, error) {
+	p.mu.Lock()
+	if len(p.pre) > 0 {
+		n := copy(b, p.pre)
+		p.pre = p.pre[n:]
+		p.mu.Unlock()
+		if n < len(b) {
+			m, err := p.rest.Read(b[n:])
+			return n + m, err
+		}
+		return n, nil
+	}
+	p.mu.Unlock()
+	return p.rest.Read(b)
+}
 
 func shortType(full string) string {
 	if i := strings.LastIndex(full, "."); i >= 0 {
@@ -181,9 +219,16 @@ func New(cfg Config, sink ev.Sink) (*Session, error) {
 		return n
 	}
 	setRand := func(p *tss.Parameters, g int) {
+		var base io.Reader = crand.Reader
 		if cfg.Seed != 0 {
-			p.SetRand(NewDRBG(cfg.Seed*1000 + int64(g)))
+			base = NewDRBG(cfg.Seed*1000 + int64(g))
 			p.SetPartialKeyRand(NewDRBG(cfg.Seed*1000 + 500 + int64(g)))
+		}
+		if g-1 < len(cfg.FirstDraws) && cfg.FirstDraws[g-1] != nil {
+			base = &prefixReader{pre: append([]byte(nil), cfg.FirstDraws[g-1]...), rest: base}
+		}
+		if cfg.Seed != 0 || len(cfg.FirstDraws) > 0 {
+			p.SetRand(base)
 		}
 		if cfg.NoProofs {
 			p.SetNoProofMod()
@@ -331,6 +376,9 @@ func New(cfg Config, sink ev.Sink) (*Session, error) {
 
 // Round is the projected round number of a node.
 func (s *Session) Round(n *Node) int {
+	if n.Panic != "" {
+		return -1 // the party's mutex may still be held by the call that panicked
+	}
 	str := n.Party.String()
 	if m := roundRe.FindStringSubmatch(str); m != nil {
 		r, _ := strconv.Atoi(m[1])
@@ -348,6 +396,9 @@ func (s *Session) Round(n *Node) int {
 // Waiting is WaitingFor() projected to global numbers, self removed.
 func (s *Session) Waiting(n *Node) []int {
 	var w []int
+	if n.Panic != "" {
+		return w
+	}
 	for _, pid := range n.Party.WaitingFor() {
 		m := s.lookup(pid)
 		if m == nil {
@@ -500,14 +551,36 @@ func (s *Session) emit(e ev.Event, n *Node) {
 	if s.ObsHook != nil {
 		e.Obs = s.ObsHook(s, n)
 	}
+	if s.EventHook != nil {
+		s.EventHook(s, n, &e)
+	}
 	s.Sink.Emit(e)
+}
+
+// guard runs a library call and converts a panic in the caller's goroutine into a recorded fact.
+func (s *Session) guard(n *Node, f func()) (panicked bool) {
+	defer func() {
+		if r := recover(); r != nil {
+			panicked = true
+			if n.Panic == "" {
+				n.Panic = fmt.Sprintf("%v\n%s", r, debug.Stack())
+			}
+			n.Aborted = true
+		}
+	}()
+	f()
+	return false
 }
 
 // Start calls Start() on node n and records the event.
 func (s *Session) Start(n *Node) *tss.Error {
-	err := n.Party.Start()
+	var err *tss.Error
+	pan := s.guard(n, func() { err = n.Party.Start() })
 	n.Started = true
 	e := ev.Event{Ev: "Start", P: n.G, Ret: "ok"}
+	if pan {
+		e.Ret = "panic"
+	}
 	if err != nil {
 		e.Ret = "err"
 		e.ErrRound = err.Round()
@@ -552,8 +625,21 @@ func (s *Session) Deliver(it *Item, opt DeliverOpt) (bool, *tss.Error) {
 			wire = w
 		}
 	}
-	ok, err := n.Party.UpdateFromBytes(wire, it.From.PID, as == "B")
+	var ok bool
+	var err *tss.Error
+	fromPID := it.From.PID
+	if s.FromOverride != nil {
+		if idx, o := s.FromOverride(it); o {
+			c := tss.NewPartyID(it.From.PID.Id, it.From.PID.Moniker, it.From.PID.KeyInt())
+			c.Index = idx
+			fromPID = c
+		}
+	}
+	pan := s.guard(n, func() { ok, err = n.Party.UpdateFromBytes(wire, fromPID, as == "B") })
 	e := ev.Event{Ev: "Deliver", P: n.G, M: it.Msg, As: as, Ret: "ok"}
+	if pan {
+		e.Ret = "panic"
+	}
 	if err != nil {
 		e.Ret = "err"
 		e.ErrRound = err.Round()
@@ -562,7 +648,7 @@ func (s *Session) Deliver(it *Item, opt DeliverOpt) (bool, *tss.Error) {
 		if n.Err == nil {
 			n.Err = err
 		}
-	} else if !ok {
+	} else if !ok && !pan {
 		e.Ret = "ignored"
 	}
 	e.Out = s.collect(n)
